@@ -210,8 +210,21 @@ Inductive sim :=
 | SOk (raw_vars : list (Z * list val)) (raw_pars : list (name * Z))
 | SCrash (e : err).
 
+(** the time axis of the time-course worker's NaN placeholder (fact regenerated from the source):
+    [TcRequested] = the requested points as they are; [TcWithStart] = the start point t0 = 0 put in
+    front when the first requested point is later, exactly as [integrate_time_course] does
+    (fixes/C09-tc-placeholder-start-point.diff) *)
+Inductive tc_axis := TcWithStart | TcRequested | TcUnknown.
+Definition starts_at_zero (tps : list Z) : bool :=
+  match tps with t :: _ => Z.eqb t 0 | [] => false end.
+Definition tc_placeholder_axis (ax : tc_axis) (tps : list Z) : list Z :=
+  match ax with
+  | TcWithStart => if starts_at_zero tps then tps else 0 :: tps
+  | TcRequested | TcUnknown => tps
+  end.
+
 (** the worker: [Simulator(model)...get_result()], [except ZeroDivisionError], [res.default(...)] *)
-Definition work (w : wkind) (m : mdl) : sim * mdl :=
+Definition work (ax : tc_axis) (w : wkind) (m : mdl) : sim * mdl :=
   match create_cache m with
   | Err e => (SCrash e, m)    (* Simulator() raises; if it is a ZeroDivisionError it is caught, but
                                  Simulation.default -> get_parameter_values() raises it again *)
@@ -222,7 +235,7 @@ Definition work (w : wkind) (m : mdl) : sim * mdl :=
       | WTimeCourse tps =>
           match integrate_tc m c y0 tps with
           | IOk tc => (SOk tc (ca_base c), m)
-          | IFail | IZeroDiv => (placeholder tps, m)
+          | IFail | IZeroDiv => (placeholder (tc_placeholder_axis ax tps), m)
           | IOther => (SCrash EKey, m)
           end
       | WSteady =>
@@ -286,6 +299,14 @@ Definition view (s : sim) (m : mdl) : out * mdl :=
 
 (** facts regenerated from the source (GenScanFacts.v) *)
 Inductive ph_axis := PhStepGrid | PhLinspaceNT | PhUnknown.
+(** protocol-time-course worker: [PtcRequested] = the requested points as they are; [PtcJoined] = t = 0,
+    then the sorted union of the requested points and the ends of the protocol steps, up to the end of
+    the protocol (fixes/C09-tc-placeholder-start-point.diff) *)
+Inductive ptc_axis := PtcJoined | PtcRequested | PtcUnknown.
+(** [DupRefuse]: every dict-keyed entry point starts with [_require_unique_index(table)]
+    (fixes/C09-duplicate-labels-refused.diff); [DupCollapse]: none does (rows with equal labels collapse) *)
+Inductive dup_policy := DupRefuse | DupCollapse | DupUnknown.
+Definition refuses (d : dup_policy) : bool := match d with DupRefuse => true | _ => false end.
 Record scan_facts := mkScanFacts {
   sf_copies : bool;          (* _update_parameters_and_initial_conditions starts with model = copy.deepcopy(model) *)
   sf_update_shape : bool;    (* ... and then updates variables, then parameters, by column membership *)
@@ -293,15 +314,39 @@ Record scan_facts := mkScanFacts {
   sf_containers : bool;      (* steady-state: list + raw_index from the table; others: dict(res); no timeout passed *)
   sf_sim_shape : bool;       (* Simulation.default / _compute_args shapes *)
   sf_workers_shape : bool;   (* workers: except ZeroDivisionError -> default; placeholder axes of ss / tc / ptc *)
-  sf_protocol_axis : ph_axis (* placeholder time axis of the protocol worker *)
+  sf_protocol_axis : ph_axis; (* placeholder time axis of the protocol worker *)
+  sf_tc_axis : tc_axis;      (* placeholder time axis of the time-course worker *)
+  sf_ptc_axis : ptc_axis;    (* placeholder time axis of the protocol-time-course worker *)
+  sf_dups : dup_policy       (* what the dict-keyed entry points do with equal index labels *)
 }.
 
 Definition label := Z.
 Definition scan_list_c (f : scan_facts) (w : wkind) md m0 rows :=
-  scan_list mdl row label sim out apply_row (work w) view (sf_copies f) md m0 rows.
+  scan_list mdl row label sim out apply_row (work (sf_tc_axis f) w) view (sf_copies f) md m0 rows.
 Definition scan_dict_c (f : scan_facts) (w : wkind) md m0 rows :=
-  scan_dict mdl row label sim out apply_row (work w) view Z.eqb (sf_copies f) md m0 rows.
-Definition independent_c (w : wkind) m0 r := independent mdl row sim out apply_row (work w) view m0 r.
+  scan_dict mdl row label sim out apply_row (work (sf_tc_axis f) w) view Z.eqb (sf_copies f) md m0 rows.
+(** ... behind the entry point's test of the index: [None] = the table is refused (ValueError) *)
+Definition scan_dict_checked_c (f : scan_facts) (w : wkind) md m0 rows :=
+  scan_dict_checked mdl row label sim out apply_row (work (sf_tc_axis f) w) view Z.eqb (refuses (sf_dups f)) (sf_copies f) md m0 rows.
+(** a separate run on a fresh copy; [ax] only matters for the shape of a failing run's placeholder *)
+Definition independent_c (ax : tc_axis) (w : wkind) m0 r := independent mdl row sim out apply_row (work ax w) view m0 r.
+
+(** ---- the entry points of scan.py / mc.py (table regenerated from the source) ---- *)
+Inductive ep_name := ScanSteadyState | ScanTimeCourse | ScanProtocol | ScanProtocolTimeCourse
+                   | McSteadyState | McTimeCourse | McProtocol | McProtocolTimeCourse | McScanSteadyState.
+Inductive wname := WkSteadyState | WkTimeCourse | WkProtocol | WkProtocolTimeCourse | WkParameterScan.
+Inductive container := CList    (* raw_results=[i[1] for i in res], raw_index from the table's values *)
+                     | CDict    (* raw_results=dict(res) *)
+                     | CDictOfScans. (* {k: v.variables.T for k, v in res}: dict of inner scans *)
+Inductive par_arg := ParByFlag      (* scan.*: parallel=parallel, pool size = cpu_count *)
+                   | ParMaxWorkers. (* mc.*: always the pool, max_workers=max_workers *)
+Record entry_point := mkEP {
+  ep_id : ep_name;
+  ep_worker : wname;          (* default of the [worker] argument *)
+  ep_container : container;
+  ep_par : par_arg;
+  ep_checks_dups : bool       (* starts with [_require_unique_index(<table>)] *)
+}.
 
 (** ---- time axes of the protocol worker (lengths only need the number of steps) ---- *)
 Section Axes.
@@ -340,3 +385,30 @@ Section Axes.
     | PhUnknown => []
     end.
 End Axes.
+
+(** ---- time axes of the protocol-time-course worker, exact in the time values ----
+    [simulate_protocol_time_course]: [full] = the sorted join of the protocol's step ends and the
+    requested points (pandas [Index.join(how="outer")] in the Simulator, [np.union1d] in the worker:
+    external, a Section variable); every step integrates over the points of [full] in
+    (t_start, t_end]: the integrator puts its start point in front ([integrate_time_course]), the
+    Simulator drops that first row for every step but the first ([skipfirst]). *)
+Section PtcAxes.
+  Variable full : list Z.
+
+  Definition in_step (a b p : Z) : bool := Z.ltb a p && Z.leb p b.
+  Fixpoint ptc_success_from (first : bool) (t_start : Z) (ends : list Z) : list Z :=
+    match ends with
+    | [] => []
+    | t_end :: rest =>
+        let pts := filter (in_step t_start t_end) full in
+        let reported := t_start :: pts in          (* t0 inserted: pts never starts at t_start *)
+        (if first then reported else tl reported) ++ ptc_success_from false t_end rest
+    end.
+  Definition ptc_success_axis (ends : list Z) : list Z := ptc_success_from true 0 ends.
+
+  Definition ptc_placeholder_axis (a : ptc_axis) (ends tps : list Z) : list Z :=
+    match a with
+    | PtcJoined => 0 :: filter (in_step 0 (last ends 0)) full
+    | PtcRequested | PtcUnknown => tps
+    end.
+End PtcAxes.
